@@ -165,8 +165,13 @@ func (k Keeper) AllocateSellingCoin(ctx context.Context, auction types.AuctionI,
 		ioCoins[bidder] = inout
 	}
 
-	// Send all inputs
-	for _, inout := range ioCoins {
+	// Send all inputs in the sorted bidder order: ranging over the map would make the
+	// order of bank transfers, events and account creation differ between executions
+	for _, bidder := range bidders {
+		inout, ok := ioCoins[bidder]
+		if !ok {
+			continue
+		}
 		if err := k.bankKeeper.InputOutputCoins(ctx, inout.input, inout.outputs); err != nil {
 			return err
 		}
@@ -271,8 +276,12 @@ func (k Keeper) RefundPayingCoin(ctx context.Context, auction types.AuctionI, mI
 		ioCoins[bidder] = inout
 	}
 
-	// Send all inputs.
-	for _, inout := range ioCoins {
+	// Send all inputs in the sorted bidder order (see AllocateSellingCoin).
+	for _, bidder := range bidders {
+		inout, ok := ioCoins[bidder]
+		if !ok {
+			continue
+		}
 		if err := k.bankKeeper.InputOutputCoins(ctx, inout.input, inout.outputs); err != nil {
 			return err
 		}
